@@ -6,7 +6,7 @@ import shv
 def kani_playback(scratch, unit, harness, timeout_s=900):
     """Re-runs one harness with concrete playback; returns {check description: [bytes,...]}."""
     cwd = os.path.join(scratch.path, unit.get('crate', '.'))
-    cmd = ['cargo', 'kani', '--output-format=terse', '-Z', 'concrete-playback', '--concrete-playback=print'] + unit.get('flags', [])
+    cmd = ['cargo', 'kani', '--output-format=terse', '-Z', 'concrete-playback', '--concrete-playback=print'] + [f.replace('{scratch}', scratch.path) for f in unit.get('flags', [])]
     if unit.get('features'):
         cmd += ['--features', unit['features']]
     cmd += ['--harness', harness]
@@ -84,3 +84,51 @@ def replay_c16_kind(ctx, obl, info, vals):
     if rc == 1 and line:
         return 'REPLAYED on the real code (native build of this tree), input signal=%d:\n  %s\n  => outcomes differ: the property is violated for this input' % (s, line[0])
     return None
+
+
+# ---- C17: Origin::extract on a synthetic siginfo ---------------------------------------------
+C17_MAIN = r"""
+use std::env;
+use signal_hook::low_level::siginfo::{Origin, Cause};
+fn main() {
+    let a: Vec<i64> = env::args().skip(1).map(|x| x.parse().unwrap()).collect();
+    let mut info: libc::siginfo_t = unsafe { std::mem::zeroed() };
+    info.si_code = a[0] as i32;
+    info.si_signo = a[1] as i32;
+    unsafe {
+        let base = &mut info as *mut libc::siginfo_t as *mut u8;
+        *(base.add(16) as *mut i32) = a[2] as i32;
+        *(base.add(20) as *mut u32) = a[3] as u32;
+    }
+    let o = unsafe { Origin::extract(&info) };
+    println!("Origin::extract(si_code={}, si_signo={}, si_pid={}, si_uid={}) = signal {} cause {:?} process {:?}", a[0], a[1], a[2], a[3], o.signal, o.cause, o.process);
+    let _ = Cause::Unknown;
+}
+"""
+
+
+def c17_expect(code, signo):
+    t = {0x80: 'Kernel', 0: 'Sent(User)', -6: 'Sent(TKill)', -1: 'Sent(Queue)', -3: 'Sent(MesgQ)'}
+    if code in t:
+        return t[code]
+    if signo == 17 and 1 <= code <= 6:
+        return 'Chld(%s)' % ['Exited', 'Killed', 'Dumped', 'Trapped', 'Stopped', 'Continued'][code - 1]
+    return 'Unknown'
+
+
+def replay_c17_rs(ctx, obl, info, vals):
+    if not vals or len(vals) < 4:
+        return None
+    code, signo, pid = le_int(vals[0]), le_int(vals[1]), le_int(vals[2])
+    uid = le_int(vals[3], signed=False)
+    rc, out = native_run(ctx['scratch'], 'c17', C17_MAIN, features=['extended-siginfo'], args=[str(code), str(signo), str(pid), str(uid)])
+    line = [l for l in out.splitlines() if l.startswith('Origin::extract(')]
+    if not line:
+        return None
+    want = c17_expect(code, signo)
+    wantp = 'None' if want in ('Unknown', 'Kernel') else 'Some(Process { pid: %d, uid: %d })' % (pid, uid)
+    got = line[0]
+    ok = ('signal %d cause %s process %s' % (signo, want, wantp)) in got
+    if ok:
+        return None
+    return 'REPLAYED on the real code (native build of this tree):\n  %s\n  expected from the kernel-documented meaning: signal %d cause %s process %s' % (got, signo, want, wantp)
